@@ -66,6 +66,7 @@ def setup():
             jobs.append(dict(source=w["source"], defines=w.get("defines", ()), compiler=w.get("compiler", "g++"), std=w.get("std", "c++11"),
                              opt=w.get("opt", "-O1"), sanitize=w.get("sanitize", True), name=w["name"]))
     jobs.append(dict(source="cq_run.cpp", name="cq_run"))
+    jobs.append(dict(source="cq_run.cpp", name=props_conc.RUNNER_HQ["name"], defines=props_conc.RUNNER_HQ["defines"]))
     for r in props_conc.RUNNERS_CC:
         jobs.append(dict(source=r["source"], defines=r["defines"], name=r["name"]))
     for r in props_conc.STRESS_CC + props_conc.STRESS_CQ:
